@@ -696,12 +696,215 @@ def cli_stdout_scope():
     return None, n
 
 
-SCOPES = ("type-directed-roundtrip", "base64-helpers-boundary-sizes", "post-init-idempotent", "ods-cell-kinds", "xlsx-cell-kinds", "xls-cell-kinds",
+# ------------------------------------------------ executable contract (SER / DESER) --
+# The spec functions of contracts/c05spec.py in executable form, written from the property statement; the function-level
+# differential scope runs the REAL functions on small typed inputs and compares with these.
+def spec_ser(v, b):
+    import base64
+    if isinstance(v, io.BytesIO):
+        return {"_bytesio": base64.b64encode(v.getvalue()).decode("ascii")} if b else None
+    if isinstance(v, (bytes, bytearray)):
+        return {"_bytes": base64.b64encode(bytes(v)).decode("ascii")} if b else None
+    if dataclasses.is_dataclass(v) and not isinstance(v, type):
+        d = {"_type": type(v).__name__}
+        for f in dataclasses.fields(v):
+            d[f.name] = spec_ser(getattr(v, f.name), b)
+        return d
+    if isinstance(v, dict):
+        return {str(k): spec_ser(x, b) for k, x in v.items()}
+    if isinstance(v, (list, tuple, set)):
+        return [spec_ser(x, b) for x in v]
+    return v
+
+
+def spec_sx(v, b):
+    s_ = spec_ser(v, b)
+    return s_ if isinstance(s_, dict) else {"value": s_}
+
+
+def _unwrap(h):
+    origin, args = typing.get_origin(h), typing.get_args(h)
+    if (origin is typing.Union or origin is getattr(types, "UnionType", None)) and len(args) == 2 and type(None) in args:
+        return [a for a in args if a is not type(None)][0]
+    return h
+
+
+def spec_deser(j, h, reg):
+    import base64
+    if j is None:
+        return None
+    e = _unwrap(h)
+    if isinstance(j, dict):
+        if "_bytesio" in j:
+            return io.BytesIO(base64.b64decode(j["_bytesio"].encode("utf-8")))
+        if "_bytes" in j:
+            return base64.b64decode(j["_bytes"].encode("utf-8"))
+        if "_type" in j:
+            return spec_deser_dc(j, None, reg)
+    origin, args = typing.get_origin(e), typing.get_args(e)
+    if origin is list:
+        return [spec_deser(x, args[0] if args else typing.Any, reg) for x in j] if isinstance(j, list) else j
+    if origin is dict:
+        return {k: spec_deser(x, args[1] if len(args) > 1 else typing.Any, reg) for k, x in j.items()} if isinstance(j, dict) else j
+    if e is bytes or e is bytearray:
+        return base64.b64decode(j.encode("utf-8")) if isinstance(j, str) else j
+    if e is io.BytesIO:
+        return io.BytesIO(base64.b64decode(j.encode("utf-8"))) if isinstance(j, str) else j
+    if isinstance(e, type) and e.__name__ in reg and isinstance(j, dict):
+        return spec_deser_dc(j, e, reg)
+    return j
+
+
+def spec_deser_dc(j, exp, reg):
+    tn = j.get("_type")
+    if isinstance(tn, str) and tn and tn in reg:
+        cls = reg[tn]
+    elif exp is not None:
+        cls = exp
+    else:
+        return j
+    data = j
+    if cls.__name__ == "ImageMetadata":
+        for new_, old_ in (("unit_number", "unit_index"), ("image_number", "image_index")):
+            if new_ not in data and old_ in data:
+                data = dict(data)
+                data[new_] = data[old_]
+    hints = typing.get_type_hints(cls)
+    kw = {f.name: spec_deser(data[f.name], hints[f.name], reg) for f in dataclasses.fields(cls) if f.name in data}
+    return cls(**kw)
+
+
+def same_value(a, b):
+    """Structural equality that looks into streams and dataclass instances (no reliance on their __eq__)."""
+    if isinstance(a, io.BytesIO) or isinstance(b, io.BytesIO):
+        return isinstance(a, io.BytesIO) and isinstance(b, io.BytesIO) and a.getvalue() == b.getvalue()
+    if type(a) is not type(b):
+        return False
+    if dataclasses.is_dataclass(a) and not isinstance(a, type):
+        return all(same_value(getattr(a, f.name), getattr(b, f.name)) for f in dataclasses.fields(a))
+    if isinstance(a, dict):
+        return list(a) == list(b) and all(same_value(a[k], b[k]) for k in a)
+    if isinstance(a, (list, tuple)):
+        return len(a) == len(b) and all(same_value(x, y) for x, y in zip(a, b))
+    return a == b
+
+
+def function_differential_scope():
+    """The real encoder / decoder functions against the executable contract on small typed inputs: values of every kind
+    (nested one level), JSON documents with and without markers x hints of every covered shape."""
+    from sharepoint2text.parsing.extractors import serialization as S
+    from sharepoint2text.parsing.extractors import data_types as D
+    reg = S._get_type_registry()
+    n = 0
+    img = D.RtfImage(image_type="png", data=b"\x89PNG", image_index=1)
+    att = D.EmailAttachment(filename="f", mime_type="m", data=io.BytesIO(b"att"))
+    dim = D.TableDim(rows=1, columns=2)
+    leaves = [None, True, 0, 7, -2.5, "", "x", "_type", "QUJD", b"", b"\x00\xff", bytearray(b"ab"), io.BytesIO(b"stream"), dim, img, att,
+              D.ImageMetadata(unit_number=1, image_number=2, content_type="image/png")]
+    values = list(leaves) + [[x] for x in leaves] + [(x, x) for x in leaves[:8]] + [{"k": x} for x in leaves] + [{x} for x in (1, "s")] + \
+             [[], {}, (), [[1, "a"], [None]], {"a": {"b": [b"\x01"]}}, D.TableData(data=[[1, "a", None]]), D.XlsSheet(name="s", data=[{"h": 1.5}], text="t")]
+    for v in values:
+        for b in (True, False):
+            if isinstance(v, io.BytesIO):
+                v.seek(len(v.getvalue()) // 2)
+            try:
+                got = S._serialize_for_json(v, include_binary=b)
+                gx = S.serialize_extraction(v, include_binary=b)
+            except Exception as e:  # noqa
+                return {"target": "serialization._serialize_for_json", "inputs": {"value": repr(v)[:120], "include_binary": b},
+                        "expected": "SER(value, include_binary)", "observed": f"{type(e).__name__}: {e}"}, n
+            n += 1
+            want = spec_ser(v, b)
+            if not same_value(got, want):
+                return {"target": "serialization._serialize_for_json", "inputs": {"value": repr(v)[:160], "include_binary": b},
+                        "expected": repr(want)[:200], "observed": repr(got)[:200]}, n
+            if not same_value(gx, spec_sx(v, b)):
+                return {"target": "serialization.serialize_extraction", "inputs": {"value": repr(v)[:160], "include_binary": b},
+                        "expected": repr(spec_sx(v, b))[:200], "observed": repr(gx)[:200]}, n
+    # decoder
+    tdim = {"_type": "TableDim", "rows": 1, "columns": 2}
+    docs = [None, True, 3, 1.5, "", "x", "QUJD", {"_bytes": "QUJD"}, {"_bytesio": "QUJD"}, tdim, {"rows": 3}, {"rows": 3, "columns": 4, "extra": 1},
+            {"_type": "NoSuchClass", "rows": 1}, {"_type": "", "rows": 1}, {"_type": 5, "rows": 1}, {"k": "v"}, {"k": {"_bytes": "QUJD"}}, {},
+            [], ["x", None], [tdim], [{"rows": 3}], {"k": {"rows": 3}}, ["QUJD"], [{"_bytes": "QUJD"}, "QUJD"], [[tdim]], [{"k": tdim}], {"k": [tdim]},
+            {"_type": "ImageMetadata", "unit_index": 3, "image_index": 4, "content_type": "c"},
+            {"_type": "ImageMetadata", "unit_number": 1, "unit_index": 3, "image_number": 2, "content_type": "c"},
+            {"_type": "TableData", "data": [[1, "a", None], [tdim]]}, {"_type": "XlsSheet", "name": "s", "data": [{"h": "QUJD"}], "text": ""},
+            spec_ser(img, True), spec_ser(att, True), spec_ser(D.RtfContent(images=[img]), True)]
+    O = typing.Optional
+    hints = [typing.Any, str, int, bool, float, bytes, bytearray, io.BytesIO, O[str], O[int], O[bytes], O[io.BytesIO], str | None, int | None,
+             typing.List[str], list[str], typing.List, typing.List[typing.Any], typing.List[typing.List[str]], O[typing.List[str]], typing.List[bytes],
+             typing.List[D.TableDim], list[D.TableDim], O[typing.List[D.TableDim]], typing.List[typing.List[D.TableDim]], typing.List[D.ImageInterface],
+             typing.Dict[str, str], dict[str, typing.Any], typing.Dict, typing.Dict[str, D.TableDim], typing.List[typing.Dict[str, D.TableDim]], O[typing.Dict[str, bytes]],
+             D.TableDim, O[D.TableDim], D.TableData, D.ImageMetadata, D.FileMetadataInterface, D.ImageInterface, D.RtfImage, O[D.RtfImage], list, dict]
+    for j in docs:
+        for h in hints:
+            import copy
+            try:
+                want = ("ok", spec_deser(copy.deepcopy(j), h, reg))
+            except Exception as e:  # noqa
+                want = ("raises", type(e).__name__)
+            try:
+                got = ("ok", S._deserialize_value(copy.deepcopy(j), h))
+            except Exception as e:  # noqa
+                got = ("raises", type(e).__name__)
+            n += 1
+            if want[0] == "ok" and not (got[0] == "ok" and same_value(got[1], want[1])):
+                return {"target": "serialization._deserialize_value", "inputs": {"value": repr(j)[:160], "expected_type": str(h)},
+                        "expected": "DESER(value, expected_type) = " + repr(want[1])[:160], "observed": repr(got[1])[:200]}, n
+        if isinstance(j, dict):
+            for exp in (None, D.TableDim, D.ImageMetadata, D.XlsSheet):
+                try:
+                    want = ("ok", spec_deser_dc(copy.deepcopy(j), exp, reg))
+                except Exception as e:  # noqa
+                    want = ("raises", type(e).__name__)
+                try:
+                    got = ("ok", S._deserialize_dataclass(copy.deepcopy(j), exp) if exp is not None else S._deserialize_dataclass(copy.deepcopy(j)))
+                except Exception as e:  # noqa
+                    got = ("raises", type(e).__name__)
+                n += 1
+                if want[0] == "ok" and not (got[0] == "ok" and same_value(got[1], want[1])):
+                    return {"target": "serialization._deserialize_dataclass", "inputs": {"data": repr(j)[:160], "expected_class": getattr(exp, "__name__", None)},
+                            "expected": repr(want[1])[:200], "observed": repr(got[1])[:200]}, n
+            if "_type" in j:
+                try:
+                    want = ("ok", spec_deser_dc(copy.deepcopy(j), None, reg))
+                except Exception as e:  # noqa
+                    want = ("raises", type(e).__name__)
+                try:
+                    got = ("ok", S.deserialize_extraction(copy.deepcopy(j)))
+                except Exception as e:  # noqa
+                    got = ("raises", type(e).__name__)
+                n += 1
+                if want[0] == "ok" and not (got[0] == "ok" and same_value(got[1], want[1])):
+                    return {"target": "serialization.deserialize_extraction", "inputs": {"data": repr(j)[:160]}, "expected": repr(want[1])[:200], "observed": repr(got[1])[:200]}, n
+        if not isinstance(j, dict) or "_type" not in j:
+            try:
+                S.deserialize_extraction(copy.deepcopy(j))
+                return {"target": "serialization.deserialize_extraction", "inputs": {"data": repr(j)[:160]}, "expected": "ValueError (no _type marker)", "observed": "returned"}, n
+            except ValueError:
+                pass
+            except Exception as e:  # noqa
+                return {"target": "serialization.deserialize_extraction", "inputs": {"data": repr(j)[:160]}, "expected": "ValueError (no _type marker)",
+                        "observed": type(e).__name__}, n
+    for h in hints:
+        u = _unwrap(h) if typing.get_origin(h) is typing.Union else h
+        want = (u, typing.get_origin(h) is typing.Union and u is not h)
+        got = S._unwrap_optional(h)
+        n += 1
+        if got != want:
+            return {"target": "serialization._unwrap_optional", "inputs": {"tp": str(h)}, "expected": repr(want), "observed": repr(got)}, n
+    return None, n
+
+
+SCOPES = ("function-differential", "type-directed-roundtrip", "base64-helpers-boundary-sizes", "post-init-idempotent", "ods-cell-kinds", "xlsx-cell-kinds", "xls-cell-kinds",
           "cli-stdout-json", "cli-payload-shapes", "fixture-documents")
 
 
 def run_scope(name):
     """-> (failure or None, description of the bound)."""
+    if name == "function-differential":
+        r, n = function_differential_scope()
+        return r, f"{n} calls: _serialize_for_json / serialize_extraction on values of every kind (nested one level), _deserialize_value on 32 JSON documents x 42 hints, _deserialize_dataclass, deserialize_extraction, _unwrap_optional -- against the executable SER/DESER"
     if name == "type-directed-roundtrip":
         r, n = type_directed_scope(False)
         return r, f"{n} instances: 5 type-directed variants of every registered dataclass, strings from a vocabulary with the markers, BOM, whitespace, lone surrogate, control and non-BMP characters"
@@ -751,6 +954,9 @@ def native_scopes(only=None):
 
 # obligation (sub)string -> directed scopes that look for a failing input of that construct
 ROUTES = (("native-scope/bounded#", None),
+          ("_serialize_for_json", ("function-differential",)), ("serialize_extraction", ("function-differential",)),
+          ("_deserialize_value", ("function-differential",)), ("_deserialize_dataclass", ("function-differential",)),
+          ("deserialize_extraction", ("function-differential",)), ("_unwrap_optional", ("function-differential",)),
           ("_bytes_to_base64", ("base64-helpers-boundary-sizes",)), ("_bytesio_to_base64", ("base64-helpers-boundary-sizes",)),
           ("_base64_to_bytes", ("base64-helpers-boundary-sizes",)),
           ("post-init", ("post-init-idempotent",)),
